@@ -2,14 +2,14 @@
 # usage: tools/process_seeds.sh C02 C03 ...   verifies every seed of the given agents' output dirs and
 # copies the confirmed ones into /verif/seeded/<id>/ (checks are run separately by tools/run_matrix.sh)
 for P in "$@"; do
-  for n in 1 2 3; do
+  for n in ${SEED_DIRS:-1 2 3}; do
     D=/tmp/seed-out/$P/$n
     [ -f "$D/patch.diff" ] || continue
     V=$(/verif/tools/verify_seed.sh "$D" 2>&1 | tail -1)
     echo "$P-$n verify: $V"
     if echo "$V" | grep -q '226 passed' && echo "$V" | grep -q '"demo_with_change":"[^"]*[1-9][0-9]* failed' && echo "$V" | grep -q '"demo_without_change":"[^"]*passed, 0 skipped'; then
       DST=/verif/seeded/$P-$n; mkdir -p $DST
-      cp "$D/patch.diff" "$D"/seed_demo_*.rs "$D/notes.md" $DST/ 2>/dev/null
+      cp "$D/patch.diff" "$D"/seed*_demo_*.rs "$D/notes.md" $DST/ 2>/dev/null
       echo "$V" > $DST/verify.json
       echo "  -> kept"
     else
